@@ -67,7 +67,7 @@ def run(ctx):
                'rows with infinite chi^2: ranking and identity only (observed: remove_resolved never excludes the largest trial aperture, so it yields excluded (model, distance) pairs but no infinite rows; infinities inside chi^2 are mapped to 1e30)', 'remove_resolved only with use_memmap=False (memmap path skips the exclusion; outside every quantifier)',
                'tie order is free')
     ctx.require_events('Fitter.fit:post', 'rows_checked', 'model_fluxes_checked', 'earlier-result-rechecked')
-    ctx.require_regimes('exact_ties', 'rows_1e30', 'rows_non-finite', 'single_model', 'models>=200', 'mode:2d', 'mode:3d', 'style:v1', 'style:v2', 'unit:flux-not-mJy:3d')
+    ctx.require_regimes('exact_ties', 'rows_1e30', 'rows_non-finite', 'single_model', 'models>=200', 'mode:2d', 'mode:3d', 'style:v1', 'style:v2', 'unit:flux-not-mJy:3d', '3d:distance-range-not-in-kpc')
     n_pkg = 16 if ctx.quick else 240
     n_src = 20 if ctx.quick else 40
     for ip in range(n_pkg):
@@ -144,7 +144,11 @@ def run(ctx):
                     theta=theta, distance_range=dr, band_wav=wav)
         pkg_range = [(-100.0, 100.0), (0, 40), (7.0, 30.0), (-20.0, 5.0)][int(rng.integers(4))]   # constructor argument of the Fitter
         try:
-            fitter = gen.make_fitter(bn, theta, d, law, pkg_range, dr, use_memmap=memmap, remove_resolved=resolved)
+            # the distance range may be given in any length unit (the scale of a row is log10 of the distance in kpc whatever that unit)
+            dunit = [None, u.pc, u.cm, u.Mpc][(ip // 2) % 4] if mode == '3d' else None
+            if dunit is not None:
+                ctx.regime('3d:distance-range-not-in-kpc')
+            fitter = gen.make_fitter(bn, theta, d, law, pkg_range, dr, use_memmap=memmap, remove_resolved=resolved, distance_unit=dunit)
         except Exception as exc:
             ctx.violation('setup:fitter', 'Fitter() raised: %r' % (exc,), wit0)
             ctx.rmdir(d)
